@@ -277,12 +277,7 @@ pub fn write_ink_list(list: &InkList) -> serde_json::Value {
     // An empty list has no items to tell which lists it belongs to: save the
     // names of its origins so that LIST_ALL / LIST_INVERT still work after a load.
     if list.items.is_empty() {
-        let mut origin_names = list.get_origin_names();
-        for origin in list.origins.borrow().iter() {
-            if !origin_names.iter().any(|name| name == origin.get_name()) {
-                origin_names.push(origin.get_name().to_string());
-            }
-        }
+        let origin_names = list.get_origin_names();
 
         if !origin_names.is_empty() {
             jobj.insert("origins".to_owned(), json!(origin_names));
